@@ -1069,6 +1069,13 @@ def run(ctx):
     rule_X3(ctx, info)
     rule_X4(ctx, info)
     rule_X5(ctx, info)
+    # the recursion and the traceback run on the networkx copy of the tree: it must hold every node (an edgeless
+    # all-outlier tree included) with its payload (same rule object as C12.N1)
+    from ..formula import imported
+    from . import C12
+
+    ctx._own_rules = set(ctx.rule_min)
+    imported(ctx, C12.rule_N1)
 
 
 # Self-test catalogue: one textual edit each (or a list of edits), applied to a scratch copy (see selftest.py).
